@@ -29,6 +29,17 @@ META = {
 AGG = re.compile(r"\b(MIN|MAX|SUM|AVG)\s*\(", re.I)
 
 
+def _deep_has_lit(n, v):
+    """a literal with value v anywhere in an expression, patterns of `if let` included"""
+    if isinstance(n, dict):
+        if n.get("k") == "lit" and n.get("v") == v:
+            return True
+        return any(_deep_has_lit(x, v) for x in n.values())
+    if isinstance(n, (list, tuple)):
+        return any(_deep_has_lit(x, v) for x in n)
+    return False
+
+
 def rules(ck, P):
     # ---------------- R-SQL-NULL
     n_rows = 0
@@ -177,7 +188,7 @@ def rules(ck, P):
         okd = False
         for blk in sts_all:
             sts = ir.stmts_of(blk)
-            di = next((i for i, s in enumerate(sts) if s.get("k") == "if" and ir.contains(s["c"], lambda y: y.get("k") == "lit" and y.get("v") == ".") and ir.contains(s["then"], lambda y: y.get("k") == "mcall" and y.get("name") == "remove")), None)
+            di = next((i for i, s in enumerate(sts) if s.get("k") == "if" and ir.deep_has_lit(s["c"], ".") and ir.contains(s["then"], lambda y: y.get("k") == "mcall" and y.get("name") in ("remove", "drain", "pop_front"))), None)
             li = next((i for i, s in enumerate(sts) if s.get("k") == "if" and ir.cmp_norm(s["c"]) is not None and ir.cmp_norm(s["c"])[0].endswith("len()") and ir.cmp_norm(s["c"])[2] == "3"), None)
             if di is not None and li is not None and di < li:
                 okd = True
